@@ -264,3 +264,35 @@ def oracle(stream, cid, ops, outs):
         if kind == "valid" and outs[0] == "none":
             fails.append({"oracle": "accept_valid", "detail": ops[0][:300], "signature": {"oracle": "accept_valid"}})
     return fails
+
+
+def directed_search(broken, rng, tier, disagreements):
+    """After a proof / table / correspondence break: look for an accepted 1..4-bit corruption on
+    the implementation (syndrome based candidates, each confirmed by Frame::read), and evaluate
+    the oracles on the disagreeing scripts."""
+    found = []
+    it = Interactive("codec")
+    try:
+        tried = 0
+        for kind, big in (("data", False), ("ack", False), ("sync", False), ("data", True), ("syn", False), ("data", False), ("data", False)):
+            txt, _ = gen_frame(rng, kind)
+            hx = it.op("enc " + txt)
+            if hx in ("bad-op", "-") or hx.startswith("trap"):
+                continue
+            out = it.op("crcsearch " + hx)
+            tried += 1
+            if out.startswith("found"):
+                pos = out.split(" ")[1]
+                ops = ["dec " + hx, "flip %s %s" % (hx, pos)]
+                found.append({"mode": "codec", "ops": ops, "impl_out": [it.op(ops[0])[:200], it.op(ops[1])[:200]],
+                              "oracle": "reject_flip", "detail": "valid frame stays accepted after flipping bits " + pos,
+                              "signature": {"oracle": "reject_flip"}})
+                break
+        for (name, mode, cid, idx, op, x, y, ops) in disagreements[:3]:
+            # a disagreement on enc/rt whose implementation side violates the round trip is a failing input
+            if op.startswith("rt ") and x != CANON.get(op[3:], op[3:]):
+                found.append({"mode": mode, "ops": [op], "impl_out": [x[:300]], "oracle": "roundtrip",
+                              "detail": "rt output differs from the submitted frame", "signature": {"oracle": "roundtrip"}})
+    finally:
+        it.close()
+    return found
